@@ -117,7 +117,16 @@ where
     debug_assert!(xs.len() == ys.len(), "number of X and Y coordinates must be the same");
 
     let roots = poly_from_roots(xs);
-    let numerators: Vec<Vec<E>> = xs.iter().map(|&x| syn_div(&roots, 1, x)).collect();
+    // divide the zero polynomial by each (x - x_i); unlike `syn_div()`, the root-based division
+    // does not reject x_i = 0, which is a valid X coordinate
+    let numerators: Vec<Vec<E>> = xs
+        .iter()
+        .map(|x| {
+            let mut numerator = roots.clone();
+            syn_div_roots_in_place(&mut numerator, core::slice::from_ref(x));
+            numerator
+        })
+        .collect();
 
     let denominators: Vec<E> = numerators.iter().zip(xs).map(|(e, &x)| eval(e, x)).collect();
     let denominators = batch_inversion(&denominators);
@@ -321,7 +330,8 @@ pub fn mul<E>(a: &[E], b: &[E]) -> Vec<E>
 where
     E: FieldElement,
 {
-    let result_len = a.len() + b.len() - 1;
+    // the product of two empty (zero) polynomials is the empty polynomial
+    let result_len = (a.len() + b.len()).saturating_sub(1);
     let mut result = vec![E::ZERO; result_len];
     for i in 0..a.len() {
         for j in 0..b.len() {
@@ -409,6 +419,11 @@ where
     if bpos == 0 {
         assert!(!b.is_empty(), "cannot divide by empty polynomial");
         assert!(b[0] != E::ZERO, "cannot divide polynomial by zero");
+    }
+
+    // an empty dividend is the zero polynomial: the quotient is the zero polynomial as well
+    if a.is_empty() {
+        return Vec::new();
     }
 
     let mut result = vec![E::ZERO; apos - bpos + 1];
